@@ -483,7 +483,7 @@ func (w *tworld) enabled() []act {
 		for _, k := range cfg.WUk {
 			out = append(out, act{K: "wu", S: i, N: k})
 		}
-		if !(cfg.Pause && s.PeerEnded) {
+		if !((cfg.Pause || cfg.SrvMaxStreams > 0) && s.PeerEnded) {
 			// (with a server that may stop reading: no RST_STREAM after its own END_STREAM - the request goroutine then
 			// finds "peer closed" and "aborted" ready in one select, Go picks at random, and only one of the two paths
 			// writes a RST_STREAM, which a blocked writer turns into a visibly different state)
@@ -498,7 +498,12 @@ func (w *tworld) enabled() []act {
 					out = append(out, act{K: "data", S: i, N: n, P: p})
 				}
 			}
-			out = append(out, act{K: "data", S: i, N: 0, P: -1, E: true})
+			if !(cfg.SrvMaxStreams > 0 && want) {
+				// (with requests waiting for a stream slot: no END_STREAM from the server while the request body is
+				// still being sent - the same random select as above then decides when the slot is given up, and with
+				// it whether the waiting request is on the wire at the next quiescent point)
+				out = append(out, act{K: "data", S: i, N: 0, P: -1, E: true})
+			}
 		}
 	}
 	if lastClosed >= 0 {
